@@ -114,8 +114,8 @@ def parse_accept(header: str):
     """[(media type, q)] for a header in the modelled grammar, else None.
 
     media-range *( OWS ";" OWS "q=" qvalue ), elements separated by OWS "," OWS; OWS = spaces / tabs.
-    Wildcards, media-type parameters, accept-extensions, q=0 and repeated media types are outside
-    the grammar the property defines behaviour for.
+    Wildcards, media-type parameters, accept-extensions and repeated media types are outside the grammar the property
+    defines behaviour for.  q=0 is a well-formed weight (the lowest); see negotiate().
     """
     out = []
     for element in header.split(","):
@@ -136,7 +136,7 @@ def parse_accept(header: str):
             if not parts[1].startswith("q="):
                 return None
             q = _qvalue(parts[1][2:])
-            if q is None or q == 0.0:
+            if q is None:
                 return None
         out.append((mt, q))
     if len({m for m, _ in out}) != len(out):
@@ -155,6 +155,10 @@ def negotiate(header):
     if not sup:
         return {DEFAULT}
     best = max(q for _, q in sup)
+    if best == 0.0:
+        # every supported type is marked "not acceptable" (RFC 7231) - "the highest-q supported type" and "the default"
+        # are both defensible readings: not decided here
+        return None
     return {m for m, q in sup if q == best}
 
 
